@@ -172,9 +172,9 @@ def coq_closure(roots):
             continue
         seen.add(f)
         txt = open(os.path.join(COQ, f)).read()
-        for m in re.finditer(r"From\s+(BX|BXGen)\s+Require\s+(?:Import|Export)?\s*([^.]*(?:\.[A-Za-z_][^.\s]*)*)\.", txt):
+        for m in re.finditer(r"From\s+(BX|BXGen)\s+Require\s+(?:Import\s+|Export\s+)?(.+?)\.(?:\s|$)", txt, re.S):
             root = "theories" if m.group(1) == "BX" else "gen"
-            for mod in re.findall(r"[A-Za-z_][A-Za-z0-9_.']*", m.group(2)):
+            for mod in m.group(2).split():
                 todo.append(os.path.join(root, mod.replace(".", "/") + ".v"))
     return sorted(seen)
 
